@@ -381,6 +381,8 @@ def witness_cases() -> typing.List[dict]:
         dict(base, lang='py', mode='as-needed', tpl='copy+nested', sup='other', types=plain_types(), tag='nested-templates', probes='auto'),
         # user templates that render nothing (namespace file through an empty Any.j2, a union through an empty UnionType.j2)
         dict(base, lang='c', mode='never', ns_types=True, tpl='copy+empty', sup=None, types=union_types(), tag='empty-templates', probes=[]),
+        # a namespace file stem spelled like a type's file name: refused in every mode, nothing listed, nothing written
+        dict(base, lang='c', mode='never', stem='Plain_1_0', tpl=None, sup=None, types=plain_types(), tag='ns-clash', probes=[]),
         # Python imports its (de)serialization templates unconditionally: they influence the output also with -pod
         dict(base, lang='py', mode='never', omit=True, tpl=None, sup=None, types=plain_types(), tag='py-omit', probes=[]),
     ]
@@ -412,7 +414,7 @@ def category(path: str, work: str, root_dir: str) -> str:
 # ---------------------------------------------------------------------------------------------
 def main(chk: core.Check, replay: typing.Optional[str] = None) -> int:
     known_entries(chk)
-    n_random = 34 if chk.tier == 'quick' else 300
+    n_random = 33 if chk.tier == 'quick' else 300
     rng = chk.rng
     cases = [make_case(rng, i, forced=w) for i, w in enumerate(witness_cases())]
     if replay:
@@ -484,7 +486,7 @@ def main(chk: core.Check, replay: typing.Optional[str] = None) -> int:
              'custom_templates': 0, 'custom_support_templates': 0, 'ns_files_listed': 0, 'support_files_listed': 0,
              'ext_override': 0, 'stem_override': 0, 'by_lang': {}, 'by_mode': {}, 'influential_inputs_checked': 0,
              'config_inputs_influential_and_unlisted': 0, 'derived_influence_total': 0, 'derived_influence_not_observed': 0,
-             'rerun_refused_no_overwrite': 0, 'list_configuration_runs': 0, 'no_overwrite': 0, 'embed_auditing_info': 0, 'configuration_file': 0}
+             'rerun_refused_no_overwrite': 0, 'namespace_clash_refused': 0, 'list_configuration_runs': 0, 'no_overwrite': 0, 'embed_auditing_info': 0, 'configuration_file': 0}
     distinct = set()
     bad: typing.List[dict] = []        # property violated by the implementation (failing input)
     mism: typing.List[dict] = []       # model and implementation disagree
@@ -543,6 +545,14 @@ def main(chk: core.Check, replay: typing.Optional[str] = None) -> int:
                 stats['model_compared'] += 1
                 if m['r_real'] == 0:
                     mism.append({'case': c, 'what': 'real run fails, model run succeeds', 'stderr': md['real']['stderr']})
+                if m['r_real'] == 5:      # namespace file / type file clash: no mode does anything
+                    stats['namespace_clash_refused'] += 1
+                    if any(x == 0 for x in rcs) or md['real']['created_files'] or md['real']['created_dirs'] \
+                            or md['list_outputs']['listing'] or md['list_inputs']['listing']:
+                        fail('a namespace-file/type-file clash is not refused in every mode before anything is listed or written',
+                             rcs=rcs, created=md['real']['created_files'])
+                elif 'would both be generated at' in md['real']['stderr']:
+                    mism.append({'case': c, 'what': 'implementation reports a namespace-file/type-file clash, model does not'})
             continue
         stats['successful'] += 1
         # ---- the property on the implementation (falsifier / oracle) ----
